@@ -7,12 +7,12 @@ cd "$wt" || exit 3
 git checkout -q -- src 2>/dev/null
 git apply --check _seed/patch.diff || { echo "patch does not apply"; exit 3; }
 build_demo() { gcc -O1 -pthread -I src/libsodium/include -I src/libsodium/include/sodium _seed/demo.c src/libsodium/.libs/libsodium.a -o _seed/demo.bin 2>/dev/null || gcc -O1 -pthread -I src/libsodium/include _seed/demo.c src/libsodium/.libs/libsodium.a -lpthread -o _seed/demo.bin; }
-make -j16 >/dev/null 2>&1; build_demo; timeout 600 _seed/demo.bin >/dev/null 2>&1; base=$?
+make -j16 >/dev/null 2>&1; build_demo; timeout ${DEMO_TIMEOUT:-600} _seed/demo.bin >/dev/null 2>&1; base=$?
 git apply _seed/patch.diff
 make -j16 >/dev/null 2>&1 || { echo "does not compile with the change"; git checkout -q -- src; exit 3; }
 make -j16 check > _seed/make_check.log 2>&1
 pass=$(grep -E "^# PASS:" _seed/make_check.log | tail -1 | awk '{print $3}'); fail=$(grep -E "^# FAIL:" _seed/make_check.log | tail -1 | awk '{print $3}')
-build_demo; timeout 600 _seed/demo.bin > _seed/demo_with_change.out 2>&1; with=$?
+build_demo; timeout ${DEMO_TIMEOUT:-600} _seed/demo.bin > _seed/demo_with_change.out 2>&1; with=$?
 git checkout -q -- src; make -j16 >/dev/null 2>&1
 echo "seed $name: demo exit without change=$base, with change=$with; make check with change: pass=$pass fail=$fail"
 d=/verif/seeded/$name; mkdir -p "$d"; cp _seed/patch.diff _seed/demo.c "$d/"; cp _seed/notes.txt "$d/agent_notes.txt" 2>/dev/null
